@@ -881,6 +881,7 @@ func (pc *PartitionContext) tryPlaceholderAllocate() *objects.AllocationResult {
 // Process the allocation and make the left over changes in the partition.
 // NOTE: this is a lock free call. It must NOT be called holding the PartitionContext lock.
 func (pc *PartitionContext) allocate(result *objects.AllocationResult) *objects.AllocationResult {
+	verifYield("allocate")
 	// find the app make sure it still exists
 	appID := result.Request.GetApplicationID()
 	app := pc.getApplication(appID)
